@@ -58,6 +58,7 @@ type run struct {
 	epoch int
 	// cuts[N] = shadow at job checkpoint N (union over the operators' acks) — M4
 	cuts map[uint64]map[string]ophar.KeyShadow
+	ep   *epochs
 }
 
 func (x *run) logf(format string, a ...any) {
@@ -70,6 +71,25 @@ func (x *run) wit(extra ...any) map[string]any {
 	for i := 0; i+1 < len(extra); i += 2 {
 		w[fmt.Sprint(extra[i])] = extra[i+1]
 	}
+	if x.ep != nil {
+		x.ep.mu.Lock()
+		w["epochs"] = append([]string{}, x.ep.history...)
+		x.ep.mu.Unlock()
+	}
+	var acks []string
+	for _, a := range x.cl.OpAcks() {
+		acks = append(acks, fmt.Sprintf("t%d op-ack %s ckpt %d [%d,%d)", a.Tick, a.Operator, a.ID, a.Start, a.End))
+	}
+	for _, a := range x.cl.SRAcks() {
+		acks = append(acks, fmt.Sprintf("t%d sr-ack %s ckpt %d pos %v", a.Tick, a.Runner, a.ID, a.Pos))
+	}
+	w["acks"] = acks
+	var asg []string
+	for _, a := range x.src.Assignments() {
+		asg = append(asg, fmt.Sprintf("t%d splitter#%d split %s -> %s cursor %d(%v)", a.Tick, a.Splitter, a.SplitID, a.Runner, a.Cursor, a.HasCursor))
+	}
+	w["assignments"] = asg
+	w["published"] = x.cl.PublishedSnapshots()
 	if errs := x.cl.JobErrors(); len(errs) > 0 {
 		w["job_errors"] = fmt.Sprint(errs)
 	}
